@@ -37,6 +37,15 @@ CLAIMED = {
                      'oracle (kept / turned into a non-detection / dropped), flag <=> count above > MAX_HITS_OKTA0, and two '
                      '2-run comparisons (other heights above the limit; non-detections instead) decided by the solver on every path.',
                 ref='DESIGN.md 4/C07', note=TRUST + '; real-number semantics of MSA+buffer'),
+    'C03': dict(text='Bounded symbolic execution of the real cloud-amount step of metarize() (_setup_sligrolay_pdf, '
+                     '_calculate_cloud_amount, max_hits_per_layer, ceilos, perc2okta, okta2code) on symbolic hit tables '
+                     'with a symbolic assignment of hits to sets: counts against a pairwise z3 oracle of distinct '
+                     '(ceilometer,time) measurements, percentage, okta with both buffers, monotonicity, code prefix.',
+                ref='DESIGN.md 4/C03', note=TRUST + '; large totals only through C18 (perc2okta for all n<=m)'),
+    'C04': dict(text='Bounded symbolic execution of the real base-height and statistics steps of metarize() against an '
+                     'independently written percentile/look-back/exclusion oracle, the whole metarize() for the sort order '
+                     'and the coded floor, and height2code on every binary64 in [0,1e5). Fluffiness is not claimed.',
+                ref='DESIGN.md 4/C04', note=TRUST + '; real-number semantics for the percentile; LOWESS stubbed'),
 }
 NA = {}
 
